@@ -185,7 +185,7 @@ def configs(tier, seed):
         for i, c in enumerate(_take(inner, n, seed)):
             c = dict(c)
             c.pop("max_states", None)
-            add(fam=fam, inner=c, dl=(i % 2 == 1), ms=(70 if q else 500), spines=2)
+            add(fam=fam, inner=c, dl=(i % 2 == 1), ms=(70 if q else (400 if fam == "c03" else 500)), spines=2)
     # --- FIFO x random searcher
     for dl in (False, True):
         add(fam="fifo", searcher="random", dl=dl, W=2, T=5, R=2, p2e=2, ms=120 if q else 600, F=1)
